@@ -3,7 +3,7 @@
    implementation with R is decided per observed trace by the extracted R (checks/c02.py); the
    refinement theorem "M = R wherever R does not fault" is not yet proved (stated in DESIGN.md). *)
 From Coq Require Import ZArith List Bool.
-From TP Require Import Model.StCore Model.StTyping Model.StRef Proofs.C02Proofs.
+From TP Require Import Model.StCore Model.StTyping Model.StRef Proofs.StProofs Proofs.C02Proofs Proofs.C02Refine.
 Import ListNotations.
 Open Scope Z_scope.
 
@@ -46,6 +46,23 @@ Theorem interpreter_hides_overflow_refuted :
     10 [VInt KSInt 127; VInt KSInt 0] body = Ok [VInt KSInt 127; VInt KDInt 127].
 Proof. exact widening_hides_overflow. Qed.
 
+(* the refinement: on every strictly typed program (typed literals only) and every well-typed store the interpreter model M
+   and the reference semantics R give the same result - the same final store, the same fault at the same point, or both run
+   out of fuel - for every fuel; in particular for the options of the code as it is (assignments stored uncoerced) *)
+Theorem interpreter_refines_reference : forall o, o_neg_checked o = true -> o_for_checked o = true -> o_case_unsigned o = true -> o_return_ok o = true ->
+  forall G fuel s body, store_ok G s = true -> tprogram true G body = true -> run_ref G fuel s body = run_program o fuel s body.
+Proof. exact program_refines_l. Qed.
+Theorem code_refines_reference : forall G fuel s body, store_ok G s = true -> tprogram true G body = true ->
+  run_ref G fuel s body = run_program o_code fuel s body.
+Proof. exact (program_refines_l o_code eq_refl eq_refl eq_refl eq_refl). Qed.
+(* ... expression by expression: an integer expression of declared kind k evaluates in M to exactly R's value tagged k *)
+Theorem integer_expressions_agree : forall o, o_neg_checked o = true -> forall G s, store_ok G s = true ->
+  forall k e, tint true G k e = true -> eval o s e = bind (reval s k e) (fun z => Ok (VInt k z)).
+Proof. exact eval_int_refines. Qed.
+Theorem boolean_expressions_agree : forall o, o_neg_checked o = true -> forall G s, store_ok G s = true ->
+  forall e, tbool true G e = true -> eval o s e = bind (rbool G s e) (fun b => Ok (VBool b)).
+Proof. exact eval_bool_refines. Qed.
+
 Example c02_nonvacuous :
   run_ref [TInt KInt; TInt KInt; TBool] 20 [VInt KInt 7; VInt KInt 0; VBool false]
     [SAssign 1 (EBin BDiv (EUn UNeg (EVar 0)) (ELit false (VInt KInt 2)));
@@ -63,3 +80,7 @@ Print Assumptions or_short_circuits.
 Print Assumptions for_tests_bound_before_each_iteration.
 Print Assumptions assignment_converts_to_declared_type.
 Print Assumptions interpreter_hides_overflow_refuted.
+Print Assumptions interpreter_refines_reference.
+Print Assumptions code_refines_reference.
+Print Assumptions integer_expressions_agree.
+Print Assumptions boolean_expressions_agree.
